@@ -298,6 +298,12 @@ func (s *triplestoreProjection) EachAdjacentEdge(node uint64, direction graph.Di
 
 func (s *triplestoreProjection) EachAdjacentNode(node uint64, direction graph.Direction, delegate func(adjacent uint64) bool) {
 	s.EachAdjacentEdge(node, direction, func(next Edge) bool {
+		if direction == graph.DirectionBoth && next.Start == node {
+			// Edge.Pick returns the start node for anything but outbound; for an edge leaving
+			// the node the adjacent node is its end
+			return delegate(next.End)
+		}
+
 		return delegate(next.Pick(direction))
 	})
 }
